@@ -77,10 +77,25 @@ func c29eq(a, b []uint32) bool {
 
 // c29appeared: how many distinct peers the seed draws from the table (real
 // calcParticipant; used for keys/classes only).
+// c29draw: the real calcParticipant; a panic of the draw itself is noted (c29drawPanic) and ends the
+// sequence like an exhausted seed, so that the caller can report it as a violation.
+var c29drawPanic string
+
+func c29draw(seed vconfig.VRFValue, table []uint32, k uint32) (v uint32) {
+	v = math.MaxUint32
+	if p := vh.Catch(func() { v = calcParticipant(seed, table, k) }); p != "" {
+		if c29drawPanic == "" {
+			c29drawPanic = fmt.Sprintf("calcParticipant(seed %x, table of %d slots, draw %d) panics: %s", seed[:], len(table), k, p)
+		}
+		return math.MaxUint32
+	}
+	return v
+}
+
 func c29appeared(seed vconfig.VRFValue, table []uint32) int {
 	m := map[uint32]bool{}
 	for i := 0; i < len(table); i++ {
-		p := calcParticipant(seed, table, uint32(i))
+		p := c29draw(seed, table, uint32(i))
 		if p == math.MaxUint32 {
 			break
 		}
@@ -222,7 +237,7 @@ func c29visits(seed vconfig.VRFValue, L int) (first []int, visited map[int]bool)
 	}
 	visited = map[int]bool{}
 	for k := 0; k < L; k++ {
-		v := calcParticipant(seed, ident, uint32(k))
+		v := c29draw(seed, ident, uint32(k))
 		if v == math.MaxUint32 {
 			break
 		}
@@ -347,6 +362,10 @@ func c29partA(r *vh.Run, item *int) {
 		for si := 0; si < sh.seeds; si++ {
 			seed := seeds[si]
 			first, visited := c29visits(seed, sh.L)
+			if c29drawPanic != "" {
+				r.Violationf("panic:single-draw", c29case{N: uint32(sh.n), C: uint32(sh.c), Seed: hex.EncodeToString(seed[:]), Source: "partA draw sequence over an identity table"}, "%s", c29drawPanic)
+				c29drawPanic = ""
+			}
 			r.Need(len(first) >= sh.n+2, "seed %d visits only %d distinct slots of %d", si, len(first), sh.L)
 			asc := make([]uint32, sh.n)
 			desc := make([]uint32, sh.n)
